@@ -5,6 +5,7 @@ import (
 	"encoding/json"
 	"os"
 	"path/filepath"
+	"sync/atomic"
 	"time"
 )
 
@@ -63,3 +64,9 @@ func waitFor(max time.Duration, cond func() bool) bool {
 		time.Sleep(2 * time.Millisecond)
 	}
 }
+
+// processors get process-wide unique names: their statistics live in a global registry keyed by name, and a port number
+// can come back
+var procSeq int64
+
+func nextProcSeq() int64 { return atomic.AddInt64(&procSeq, 1) }
